@@ -140,6 +140,7 @@ pub uninterp spec fn str_le(a: Seq<char>, b: Seq<char>) -> bool;
 { unimplemented!() }
 
 // ---------------- C10: the dependency relation the configuration declares ----------------
+pub open spec fn t2i_ok(ts: Seq<Target>, m: Map<Seq<char>, usize>, upto: int) -> bool { forall|j: int| 0 <= j < upto ==> m.dom().contains(#[trigger] ts[j].path@) && m[ts[j].path@] == j }
 pub open spec fn distinct_paths(ts: Seq<Target>, upto: int) -> bool { forall|i: int, j: int| 0 <= i < j < upto ==> (#[trigger] ts[i]).path@ != (#[trigger] ts[j]).path@ }
 // T_i depends on T_j: j is not i and T_j's directory encloses T_i's directory or some `uses` entry of T_i (whole components)
 pub open spec fn dep(ts: Seq<Target>, i: int, j: int) -> bool {
@@ -348,7 +349,7 @@ pub open spec fn index_ok(ts: Seq<Target>, roots: Set<Seq<char>>, dag: Dag) -> b
 pub open spec fn root_views(s: Set<Seq<char>>) -> Set<Seq<char>> { s }
 
 impl<'a> Index<'a> {
-//!fn src/core/mod.rs Index::new rules=R1,R3,R5,R6,R16,R17 props=C10,C03,C05,C09,C01,C04
+//!fn src/core/mod.rs Index::new rules=R1,R3,R5,R6,R16,R17 props=C10,C03,C05,C09,C01,C04,C11
     pub(crate) fn new(
         cfg: &'a Config,
         visible_targets: &HashSet<&String>,
@@ -359,6 +360,9 @@ impl<'a> Index<'a> {
 @            res matches Ok(ix) ==> index_ok(cfg.targets@, visible_targets@, ix.dag), // [C10,C03,C05,C09,C04]
 @            // C01: the tries and the reverse maps represent the configuration (what analyze_change requires)
 @            res matches Ok(ix) ==> rep_ok(ix, cfg.targets@), // [C01]
+@            // C11: a target's index is its position in the configuration's target list (merge_target_argmaps uses it to read THAT target's
+@            // argmap directory out of cfg.targets)
+@            res matches Ok(ix) ==> t2i_ok(cfg.targets@, ix.target2index@, cfg.targets@.len() as int), // [C11]
     {
         let mut targets⟦: Vec<String>⟧ = vec![];
         let mut target2index⟦: HashMap<&str, usize>⟧ = HashMap::new();
@@ -378,6 +382,7 @@ impl<'a> Index<'a> {
 @                dag.adj_list@.len() == n, dag.visibility@.len() == n, dag.cycle_state is Unknown,
 @                rows_empty_from(dag.adj_list@, 0), forall|v: int| 0 <= v < n ==> !(#[trigger] dag.visibility@[v]),
 @                distinct_paths(ts, i as int), labels_upto(ts, dag.label2node@, dag.node2label@, i as int), keys_upto(ts, targets_builder.keys, i as int),
+@                t2i_ok(ts, target2index@, i as int),
 @                ent_rep(ts, false, i as int, 0, ignores_builder.keys, ignore2targets@),
         { let target = &cfg.targets[i];target2index.insert(target.path.as_str(), i);
             targets.push(target.path.to_owned());
